@@ -745,6 +745,7 @@ mod sync {
                     if !waker.is_null() {
                         unsafe {Box::from_raw(waker)}.wake();
                     }
+                    #[cfg(ohkami_verif)] let _ = super::__verif_sync::sched(4);
                 }).expect("Something went wrong with Ctrl-C");
 
                 #[cfg(any(feature="rt_glommio"))]
